@@ -245,6 +245,9 @@ func mustEvents(call ssa.CallInstruction, tag func(ssa.Instruction) string, dept
 
 // isSentinelError: a load of a package-level error variable that the package initialiser sets to errors.New /
 // fmt.Errorf and nothing else stores to (ErrXxx sentinels) — never nil.
+// IsSentinelError reports whether v loads a package-level error variable initialised with errors.New / fmt.Errorf.
+func IsSentinelError(v ssa.Value) bool { return isSentinelError(v) }
+
 func isSentinelError(v ssa.Value) bool {
 	u, ok := v.(*ssa.UnOp)
 	if !ok || u.Op != token.MUL {
